@@ -1403,6 +1403,13 @@ func (e *Entry) Find(name string) *Entry {
 			if m != e.Node.(*Module) {
 				e = ToEntry(m)
 			}
+		} else if root, ok := e.Node.(*Module); ok && root.BelongsTo != nil {
+			// A name without prefix belongs to the current module; the
+			// nodes written in a submodule live in the tree of the
+			// module it belongs to.
+			if m := module(root); m != nil {
+				e = ToEntry(m)
+			}
 		}
 	}
 
